@@ -31,6 +31,7 @@ func runC04(c *core.Ctx) {
 	ruleStreamLength(c)
 	ruleC04Lexical(c)
 	ruleObjStmLookup(c)
+	ruleTrimOneEOL(c)
 }
 
 func ruleFirstEntryWins(c *core.Ctx) {
@@ -1041,6 +1042,54 @@ func ruleObjStmLookup(c *core.Ctx) {
 			}
 		}
 	})
+	c.Check(rule, "pdf.getFromObjStm/adjacent", "a member that starts exactly where the header table ends (no white space before a delimiter: distance 0) and every member further on is read: the guards between the distance computation and ReadObject hold for every distance >= 0", func(o *core.Ob) {
+		fn := c.Prog.Func("pdf", "getFromObjStm")
+		g := fn.Graph()
+		info := fn.Info()
+		discards := callVerticesSuffix(g, ".Discard")
+		if len(discards) != 1 || len(discards[0].Call.Args) != 1 {
+			core.Undecided("the single Discard call of getFromObjStm was not found")
+		}
+		argID, ok := ast.Unparen(discards[0].Call.Args[0]).(*ast.Ident)
+		if !ok {
+			core.Undecided("Discard argument is not a variable")
+		}
+		delta := info.ObjectOf(argID)
+		defs := defVertices(g, delta)
+		if len(defs) != 1 {
+			core.Undecided("distance variable has %d definitions", len(defs))
+		}
+		r, ok := rhsFor(info, defs[0], delta)
+		if !ok || r == nil {
+			core.Undecided("distance definition not understood")
+		}
+		be, ok := ast.Unparen(r).(*ast.BinaryExpr)
+		if !ok || be.Op != token.SUB || len(core.CallsTo(info, be.Y, false, "pdf.(*scanner).CurrentPos")) != 1 {
+			core.Undecided("distance is not <offset> - CurrentPos(): %s", c.Prog.Src(r))
+		}
+		o.At(fn.Site(defs[0].AST, "distance to the member"))
+		reads := callVerticesSuffix(g, ".ReadObject")
+		if len(reads) == 0 {
+			core.Undecided("ReadObject call not found")
+		}
+		for _, rd := range reads {
+			o.Count(1)
+			var atoms []core.Atom
+			for _, a := range g.DominatingAtoms(rd.V) {
+				if core.Mentions(info, a.Expr, delta) {
+					atoms = append(atoms, a)
+				}
+			}
+			legal := core.Formula{Fn: fn, Atoms: []core.Atom{{Expr: &ast.BinaryExpr{X: argID, Op: token.GEQ, Y: &ast.BasicLit{Kind: token.INT, Value: "0"}}}}}
+			holds, counter, decided := c.Prog.Implies(legal, core.Formula{Fn: fn, Atoms: atoms})
+			if !decided {
+				core.Undecided("guards on the distance not decided: %s", counter)
+			}
+			if !holds {
+				o.FailAt(fn.Site(rd.Call, ""), "%s: the member is not read for %s (guards: %s)", c.Prog.Pos(rd.Call.Pos()), counter, c.Prog.FormulaString(core.Formula{Atoms: atoms}))
+			}
+		}
+	})
 	c.Check(rule, "pdf.getObjStm/first", "member offsets are relative to /First and the header holds /N pairs", func(o *core.Ob) {
 		fn := c.Prog.Func("pdf", "getObjStm")
 		keys := core.DictKeysRead(fn.Info(), fn.Decl, "pdf", "Dict")
@@ -1089,4 +1138,111 @@ func isEndstreamFlag(fn *core.Func, obj types.Object, declared types.Object) boo
 		fromCall = true
 	}
 	return fromCall
+}
+
+// ruleTrimOneEOL (C04-R8): the end-of-line marker before "endstream" is not
+// stream data, but only ONE marker (CR, LF or CR LF) is removed: white space
+// before it belongs to the data.  Decided on the shape of trimTrailingEOL:
+// the extent is shortened outside of any loop, by at most two bytes on any
+// path, and only on edges where the byte removed last is LF or CR (the
+// second byte only when it is the CR of a CR LF pair).
+func ruleTrimOneEOL(c *core.Ctx) {
+	const rule = "C04-R8"
+	c.Check(rule, "pdf.trimTrailingEOL", "exactly one end-of-line marker (LF, CR or CR LF) is removed from a recovered stream extent, never other white space and never more than one marker", func(o *core.Ob) {
+		fn := c.Prog.Func("pdf", "trimTrailingEOL")
+		g := fn.Graph()
+		info := fn.Info()
+		length := paramObj(fn, "length")
+		// sites that shorten the extent
+		type dec struct {
+			v *core.V
+			k int64
+		}
+		var decs []dec
+		for _, dv := range defVertices(g, length) {
+			switch s := dv.AST.(type) {
+			case *ast.IncDecStmt:
+				if s.Tok != token.DEC {
+					core.Undecided("the extent is incremented")
+				}
+				decs = append(decs, dec{dv, 1})
+			case *ast.AssignStmt:
+				k, ok := core.IntConst(info, s.Rhs[0])
+				if s.Tok != token.SUB_ASSIGN || !ok || len(s.Rhs) != 1 {
+					core.Undecided("modification of the extent not understood: %s", c.Prog.Src(s))
+				}
+				decs = append(decs, dec{dv, k})
+			default:
+				core.Undecided("modification of the extent not understood")
+			}
+		}
+		if len(decs) == 0 {
+			o.Fail("trimTrailingEOL never shortens the extent")
+			return
+		}
+		// the probe buffer and the number of bytes read
+		var probe types.Object
+		for _, cs := range callVerticesSuffix(g, ".ReadAt") {
+			if len(cs.Call.Args) == 2 {
+				e := cs.Call.Args[0]
+				if sl, ok := ast.Unparen(e).(*ast.SliceExpr); ok {
+					e = sl.X
+				}
+				probe = core.ObjOf(info, e)
+			}
+		}
+		if probe == nil {
+			core.Undecided("probe buffer not found")
+		}
+		isProbeAt := func(e ast.Expr, back int64) bool {
+			ix, ok := ast.Unparen(e).(*ast.IndexExpr)
+			if !ok || core.ObjOf(info, ix.X) != probe {
+				return false
+			}
+			be, ok := ast.Unparen(ix.Index).(*ast.BinaryExpr)
+			if !ok || be.Op != token.SUB {
+				return false
+			}
+			k, ok := core.IntConst(info, be.Y)
+			return ok && k == back
+		}
+		eol := core.BytesOf("\n\r")
+		maxTotal := int64(0)
+		for _, d := range decs {
+			o.At(fn.Site(d.v.AST, "shortens the extent"))
+			o.Count(1)
+			if g.InLoop(d.v) {
+				o.FailAt(fn.Site(d.v.AST, ""), "%s: the extent is shortened inside a loop: more than one end-of-line marker (or other white space) can be removed", c.Prog.Pos(d.v.AST.Pos()))
+				continue
+			}
+			// bytes at the end for which this site is reachable
+			last := &core.ByteEnv{Info: info, Alias: func(e ast.Expr) bool { return isProbeAt(e, 1) }, Tables: map[types.Object][]int64{}}
+			if v, ok := fn.Pkg.Types.Scope().Lookup("class").(*types.Var); ok {
+				last.Tables[v] = c.Prog.ArrayTable("pdf", "class")
+			}
+			set := last.ReachSet(g, []*core.V{g.Entry}, func(x *core.V) bool { return x == d.v }, nil)
+			if !set.SubsetOf(eol) {
+				o.FailAt(fn.Site(d.v.AST, ""), "%s: the extent is shortened when the last byte is one of %s: only LF and CR end a line", c.Prog.Pos(d.v.AST.Pos()), set.Minus(eol))
+			}
+			// other decrements before this one on a path
+			total := d.k
+			for _, p := range decs {
+				if p.v != d.v && g.ReachFrom(p.v, false, nil)[d.v] {
+					total += p.k
+					// second byte: only the CR of CR LF
+					prev := &core.ByteEnv{Info: info, Alias: func(e ast.Expr) bool { return isProbeAt(e, 2) }, Tables: last.Tables}
+					s2 := prev.ReachSet(g, []*core.V{g.Entry}, func(x *core.V) bool { return x == d.v }, nil)
+					lf := last.ReachSet(g, []*core.V{g.Entry}, func(x *core.V) bool { return x == d.v }, nil)
+					if !s2.SubsetOf(core.BytesOf("\r")) || !lf.SubsetOf(core.BytesOf("\n")) {
+						o.FailAt(fn.Site(d.v.AST, ""), "%s: a second byte is removed for last bytes %s / preceding bytes %s: only the pair CR LF is a two-byte marker", c.Prog.Pos(d.v.AST.Pos()), lf, s2.Minus(core.BytesOf("\r")))
+					}
+				}
+			}
+			if total > maxTotal {
+				maxTotal = total
+			}
+		}
+		o.Fact("at most %d bytes removed on a path", maxTotal)
+		o.Require(maxTotal <= 2, "up to %d bytes are removed on one path; an end-of-line marker has at most two", maxTotal)
+	})
 }
